@@ -92,6 +92,32 @@ def run(cx: Cx):
                              f"{s.describe()}: class-level state may only be written by the metaclass constructor and the "
                              f"class-level API, on the receiver class itself", where=s.where)
         cx.floor(f"{loc[1]} write sites", len(sites), 2)
+    # ... and the class-level API of one class never operates on another class: a call that reaches a class-level write through a
+    # receiver other than `self` changes what a different class (a parent, a sibling) holds
+    n_calls = 0
+    for mname in ('add_class_component', 'remove_class_component', '__init__'):
+        for mfn in meta.methods.get(mname, [])[:1]:
+            self_sym = Sym(mfn.params[0]) if mfn.params else None
+            hit = None
+            for p in cx.walker.paths(mfn, WalkOptions(unroll=1, callee_raises=False)):
+                for e in p.events:
+                    if e.kind != 'call' or e.data.get('target_kind') != 'pkg':
+                        continue
+                    n_calls += 1
+                    recv = e.data.get('recv')
+                    if recv is None or _rooted_at(recv, self_sym) or strip_versions(recv) == self_sym:
+                        continue
+                    for t in e.data.get('targets', []) or []:
+                        if any(w.loc in (MC, MT) for w, _ch in cx.effects.trans_writes(t)):
+                            hit = hit or (e, t)
+            if hit:
+                e, t = hit
+                cx.violation('R-DISC', mfn.qualname, 'class-level-operations-touch-the-receiver-only',
+                             f"{mfn.qualname} calls {t.qualname} on {e.data.get('recv')!r}, another class: attaching to (or detaching from) one "
+                             f"class changes the class components of a different class", where=cx.where(mfn, e.line))
+    if not any(o.key.endswith('class-level-operations-touch-the-receiver-only') for o in cx.violations()):
+        cx.ok('R-DISC', f"class-level operations change the receiver class only ({n_calls} package call(s) examined)", where=meta.where,
+              function=meta.qualname)
     for s in cx.effects.sites_of(AC):
         v = s.ev.data.get('value')
         syms = term_symbols(v) if v is not None else set()
